@@ -23,6 +23,8 @@ A history is (table, [(ev, id, r)]):
   table  [(cell, part, cap, limits)]   cap = {cpu, memory, disk} spelled
          quantities (mantissa, suffix); limits = {trait: {cpu, memory, disk}}
   ev     'Create' | 'Update' | 'Delete' | 'Sync' (id = ('', cell), r None)
+         | 'Reconf' (id = ('', cell), r = {part, cap, limits}: the environment
+           rewrites the partition record through the real Partition.update)
          | 'Assign' | 'Unassign' (r = {pattern, priority})
   id     (alloc, cell)                 alloc = 'tenant/name'
   r      {part, tg, traits, cpu, memory, disk [, rank, adj, maxu]}   (None for Delete)
@@ -245,8 +247,57 @@ class World:
                      limits=[dict(trait=t, **_qty_json(l)) for t, l in sorted(limits.items())])
                 for cell, part, cap, limits in self.table]
 
-    def project(self):
+    def raw_parts(self):
+        """The partition table parsed from the RAW directory entries (same shape
+        as header())."""
+        out = []
+        for dn in sorted(self.ldap.entries):
+            e = self.ldap.entries[dn]
+            if 'tmPartition' not in e.get('objectClass', []):
+                continue
+            comps = dn.split(',')
+            part, cell = comps[0].split('=', 1)[1], comps[1].split('=', 1)[1]
+            by_opt = {}
+            for k, v in e.items():
+                if ';' in k:
+                    attr, opt = k.split(';', 1)
+                    by_opt.setdefault(opt, {})[attr] = v[0]
+            limits = []
+            for opt in sorted(by_opt):
+                a = by_opt[opt]
+                limits.append(dict(trait=a['allocation-limit-trait'],
+                                   cpu=unspell(a.get('allocation-limit-cpu', '0%')),
+                                   memory=unspell(a.get('allocation-limit-memory', '0G')),
+                                   disk=unspell(a.get('allocation-limit-disk', '0G'))))
+            out.append(dict(cell=cell, part=part,
+                            cap=dict(cpu=unspell(e.get('cpu', ['0%'])[0]),
+                                     memory=unspell(e.get('memory', ['0G'])[0]),
+                                     disk=unspell(e.get('disk', ['0G'])[0])),
+                            limits=sorted(limits, key=lambda l: l['trait'])))
+        return out
+
+    def reconf(self, cell, r):
+        """The environment rewrites a partition record (what `treadmill admin ldap
+        partition configure` / `... limit` do: Partition.update, create if new)."""
+        obj = {'cpu': spell(r['cap']['cpu']), 'memory': spell(r['cap']['memory']),
+               'disk': spell(r['cap']['disk']),
+               'limits': [{'trait': t, 'cpu': spell(l['cpu']), 'memory': spell(l['memory']),
+                           'disk': spell(l['disk'])} for t, l in sorted(r['limits'].items())]}
+        try:
+            try:
+                self.partition.update([r['part'], cell], obj)
+            except tm_admin.exc.NoSuchObjectResult:
+                self.partition.create([r['part'], cell], obj)
+            return 'ok', ''
+        except tlc.MachineryError:
+            raise
+        except Exception as err:  # pylint: disable=broad-except
+            raise HarnessBug('partition rewrite failed: %r' % (err,))
+
+    def project(self, with_parts=False):
         """Abstract state from the RAW directory entries."""
+        if with_parts:
+            return dict(self.project(), parts=self.raw_parts())
         res = []
         for dn in sorted(self.ldap.entries):
             e = self.ldap.entries[dn]
@@ -370,6 +421,8 @@ class World:
         """Issue one API call.  Returns (outcome, exception type name)."""
         if ev == 'Sync':
             return self.sync(ident[1])
+        if ev == 'Reconf':
+            return self.reconf(ident[1], r)
         if ev in ('Assign', 'Unassign'):
             return self.assign(ev, ident, r)
         alloc, cell = ident
@@ -423,6 +476,9 @@ def _opt(v):
 def norm_request(r):
     if 'pattern' in r:      # Assign / Unassign
         return dict(pattern=r['pattern'], priority=int(r.get('priority', 0)))
+    if 'cap' in r:          # Reconf
+        return dict(part=r['part'], cap=_qty_json(r['cap']),
+                    limits=[dict(trait=t, **_qty_json(l)) for t, l in sorted(r['limits'].items())])
     return dict(part=r['part'], tg=bool(r['tg']), traits=sorted(r['traits']),
                 cpu=[int(r['cpu'][0]), r['cpu'][1]], memory=[int(r['memory'][0]), r['memory'][1]],
                 disk=[int(r['disk'][0]), r['disk'][1]],
